@@ -502,7 +502,7 @@ def r4_double_definition(R) -> None:
     c = Fn(R, f'{P}.Symbol.combine')
     rs = c.raises('ParserError')
     if not rs:
-        R.inconclusive(c.q, 'double-def', 'no ParserError raise readable in Symbol.combine or its helpers', where=c.fi.where)
+        R.inconclusive(c.q, 'double-def: no ParserError raise readable in Symbol.combine or its helpers')
         return
     for nm in ('equation', 'code'):
         a0, a1 = f'self.{nm}', f'other.{nm}'
